@@ -371,6 +371,7 @@ def strategies():
                     st.one_of(st.integers(-1, 6), st.none()), st.integers(1, 3)),
         '_cell_preprocessor': T(st.sampled_from(['_0_0_0', '_9_9_9', 'nope'])), 'exec_function_in': T(st.sampled_from(['_0_0_0', '_9_9_9', 'nope'])),
         '_count_blank': T(flat), '_ifs': T(st.lists(scalar, max_size=6)),
+        '_criterion_operand': T(st.one_of(words, st.sampled_from(['27', '-3', '+2.5', '1e3', '007', '2.50', '-', '', '1e', '٣', '1_0', 'x7', '9' * 320, '1e999']))),
         '_with_rows_set_below': T(st.sampled_from([0, 0, 1, 5]), st.integers(0, 2), st.integers(0, 3), matrix),
         '_search': T(st.one_of(words, nums), st.one_of(words, nums, blank), st.one_of(st.integers(-1, 8), st.none())),
         '_excel_value_to_string': T(scalar), '_parse_date_formats': T(words, st.sampled_from(['%Y-%m-%d', '%d.%m.%Y', '%H:%M', 'x'])),
